@@ -275,6 +275,9 @@ def wf_index(tree, nodes, *, expected_id=None, probe_ids=(), probe_data=(), id_o
                 got = list(par.find_all(n.data))
                 got2 = list(par.find_all(data_id=d))
                 ff = par.find_first(n.data)
+                ff2 = par.find_first(data_id=d)
+                if ff2 is None or not any(ff2 is w for w in want):
+                    errs.append(f"{safe_repr(par)}.find_first(data_id={d!r}) returns {ff2!r}, nodes of that branch carrying the id: {want!r}")
                 cnt("node.find_all(data)")
                 if _idset(got) != _idset(want) or _idset(got2) != _idset(want):
                     errs.append(f"{safe_repr(par)}.find_all({n.data!r}) returns {got!r}, find_all(data_id={d!r}) returns {got2!r}, "
